@@ -320,7 +320,9 @@ namespace ip {
 
 		// this was initiated at least one 3-way handshake ago.
 		// we can pick it up and consider it connected
-		if (m_remote_endpoint) *m_remote_endpoint = c->ep[0];
+		// report the connecting socket as it is seen from here (through any
+		// NAT), the same as the accepted socket's remote_endpoint()
+		if (m_remote_endpoint) *m_remote_endpoint = c->visible_ep[0];
 		m_remote_endpoint = nullptr;
 
 		boost::system::error_code ec;
